@@ -3176,7 +3176,8 @@ impl Server {
                 let timeout_str = String::from_utf8_lossy(bytes);
                 // Try parsing as float first to handle both integer and decimal values
                 match timeout_str.parse::<f64>() {
-                    Ok(t) if t < 0.0 => return Ok(RespFrame::error("ERR timeout is not a float or out of range")),
+                    // NaN, negative, or too large for the clock
+                    Ok(t) if !(t >= 0.0 && t <= (i64::MAX / 1000) as f64) => return Ok(RespFrame::error("ERR timeout is not a float or out of range")),
                     Ok(0.0) => None, // 0 means block forever
                     Ok(t) => Some(std::time::Duration::from_secs_f64(t)),
                     Err(_) => return Ok(RespFrame::error("ERR timeout is not a float or out of range")),
@@ -3235,7 +3236,8 @@ impl Server {
                 let timeout_str = String::from_utf8_lossy(bytes);
                 // Try parsing as float first to handle both integer and decimal values
                 match timeout_str.parse::<f64>() {
-                    Ok(t) if t < 0.0 => return Ok(RespFrame::error("ERR timeout is not a float or out of range")),
+                    // NaN, negative, or too large for the clock
+                    Ok(t) if !(t >= 0.0 && t <= (i64::MAX / 1000) as f64) => return Ok(RespFrame::error("ERR timeout is not a float or out of range")),
                     Ok(0.0) => None, // 0 means block forever
                     Ok(t) => Some(std::time::Duration::from_secs_f64(t)),
                     Err(_) => return Ok(RespFrame::error("ERR timeout is not a float or out of range")),
